@@ -5,7 +5,7 @@ from pyvc.contracts import *
 MSG = Rec('Message')
 PL = Rec('Payload')
 TS = Rec('TrafficSelector')
-EVERYTHING = ['self.*', 'self.new_ike_sa.*', 'ghost:trace', 'ghost:handled', 'ghost:now']
+EVERYTHING = ['self.*', 'self.new_ike_sa.*', 'ghost:trace', 'ghost:handled', 'ghost:now', 'ghost:installs', 'ghost:dh_ops']
 
 # ---- triggers (contracts used by _process_response's replay of queued events) ---------------------------------
 TRIGGER = dict(returns=Opt(Bytes), props=['C08', 'C09', 'C13'], requires=['inv_ikesa(self)'], modifies=EVERYTHING,
@@ -21,7 +21,7 @@ c.allocates = True
 c = contract('ikesa.IkeSa.process_expire', params={'spi': Bytes, 'hard': Bool}, verify=False, **TRIGGER)
 c.allocates = True
 
-contract('ikesa.IkeSa._process_response', params={'message': MSG}, returns=Opt(Bytes), props=['C08', 'C09'],
+contract('ikesa.IkeSa._process_response', params={'message': MSG}, returns=Opt(Bytes), props=['C08', 'C09', 'C17'],
          # T6 (DESIGN.md section 5): Message IDs do not wrap (an IKE_SA is rekeyed long before 2^32 exchanges)
          requires=['inv_ikesa(self)', 'message.is_response', '0 <= message.message_id < 2 ** 32',
                    'self.my_msg_id + 1 < 2 ** 32 - 1'],
@@ -50,7 +50,7 @@ contract('ikesa.IkeSa._process_response', params={'message': MSG}, returns=Opt(B
 # protected(m): m came out of Message.parse through a checked SK payload.  Message.parse's contract says
 # inner payloads exist only after the MAC comparison (accepts-only-mac); a message without inner payloads
 # that was parsed under keys carries no authenticated content at all.
-contract('ikesa.IkeSa.process_message', params={'data': Bytes}, returns=Opt(Bytes), props=['C03', 'C08', 'C13'],
+contract('ikesa.IkeSa.process_message', params={'data': Bytes}, returns=Opt(Bytes), props=['C03', 'C08', 'C13', 'C17'],
          # T6: Message IDs do not wrap
          requires=['inv_ikesa(self)', 'self.my_msg_id + 1 < 2 ** 32 - 1', 'self.peer_msg_id + 1 < 2 ** 32 - 1'],
          modifies=EVERYTHING,
